@@ -379,8 +379,8 @@ func requestedIn(base *loaderlab.Result) []int {
 // makes the dependent fetch see null, so that probe is left out for such plans
 var skipNullEntities bool
 
-// abortKinds: also inject the kinds after which the resolve returns an error (see loaderlab.FaultKind.Aborts)
-var abortKinds bool
+// abortKinds: also inject the kinds after which the resolve used to return an error (loaderlab.FaultKind.Aborts; repaired eb6ed70)
+var abortKinds = true
 
 // shapeRot rotates the variants of the shape faults from plan to plan (seed and index of the plan)
 var shapeRot int
@@ -558,7 +558,7 @@ func main() {
 		mode = "mixed"
 	}
 	curMode = mode
-	abortKinds = a["abortkinds"] == "1"
+	abortKinds = a["abortkinds"] != "0" // since eb6ed70 these kinds are ordinary reported failures: on by default
 	if a["out"] != "" && a["out"] != "-" {
 		crumbPath = a["out"] + ".current"
 	}
